@@ -8,6 +8,9 @@
 // {false,true} (relations), every update carrying values unique to its list
 // position x every t in {0..4} and every t1 <= t2.
 //
+// Boundary classes (Case.Scale / Pal / Far / BaseVar, n = 0) run on shorter
+// lists: each class alone, and every combination of them on still shorter ones.
+//
 // The reference model (model.go) is written here and never calls /repo.
 package main
 
@@ -33,20 +36,67 @@ var (
 	otherZone = time.FixedZone("plus5", 5*3600)
 )
 
-var stampTab, atTab [maxT + 2]time.Time
+// Time scales: what the abstract timestamps 1..3 and query times 0..maxT stand
+// for. Every scale is strictly monotone and stamp(i) and at(i) are the same
+// instant, so "stamped at or before t" is ts <= t in every scale.
+const nScales = 3
+
+var stampTab, atTab [nScales][maxT + 2]time.Time
 
 func init() {
-	for i := range stampTab {
-		stampTab[i] = epoch.Add(time.Duration(i) * time.Hour)
-		atTab[i] = epoch.Add(time.Duration(i) * time.Hour).In(otherZone)
+	// scale 0: whole hours in 2020
+	for i := range stampTab[0] {
+		stampTab[0][i] = epoch.Add(time.Duration(i) * time.Hour)
+		atTab[0][i] = epoch.Add(time.Duration(i) * time.Hour).In(otherZone)
 	}
 	// outside the range of int64 nanoseconds since 1970 (ends in 2262): times are
 	// compared as instants, not as nanosecond counts
-	atTab[maxT] = time.Date(9999, 12, 31, 23, 59, 59, 0, time.UTC)
+	atTab[0][maxT] = time.Date(9999, 12, 31, 23, 59, 59, 0, time.UTC)
+
+	// scale 1: one nanosecond apart, around the instant from which update
+	// timestamps are commit times (osm.CommitInfoStart, written out here), the
+	// stored timestamps in two zones, the query times in a third one. at(maxT) is
+	// one nanosecond after the last timestamp, not a far-future instant.
+	commitInfoStart := time.Date(2012, 9, 12, 9, 30, 3, 0, time.UTC)
+	west := time.FixedZone("minus7", -7*3600)
+	nepal := time.FixedZone("plus0545", 5*3600+45*60)
+	for i := range stampTab[1] {
+		tm := commitInfoStart.Add(time.Duration(i-2) * time.Nanosecond)
+		stampTab[1][i] = tm
+		if i%2 == 1 {
+			stampTab[1][i] = tm.In(west)
+		}
+		atTab[1][i] = tm.In(nepal)
+	}
+
+	// scale 2: the ends of what a time.Time usually holds: an update without a
+	// timestamp (the zero time, year 1), 1970-01-01 (Unix time 0), an instant
+	// after 2262-04-11 (no int64 nanosecond count); the query times are the same
+	// instants, one nanosecond before the zero time, and the years 2300 and 9999.
+	var zero time.Time
+	after2262 := time.Date(2262, 4, 12, 0, 0, 0, 0, time.UTC)
+	stampTab[2] = [maxT + 2]time.Time{zero.Add(-time.Nanosecond), zero, time.Unix(0, 0).UTC(), after2262,
+		time.Date(2300, 1, 1, 0, 0, 0, 0, time.UTC), time.Date(9999, 12, 31, 23, 59, 59, 0, time.UTC), time.Date(9999, 12, 31, 23, 59, 59, 1, time.UTC)}
+	atTab[2] = stampTab[2]
+	atTab[2][2] = time.Unix(0, 0).In(otherZone)
+	atTab[2][3] = after2262.In(west)
+
+	for sc := 0; sc < nScales; sc++ {
+		for i := 0; i < maxT; i++ {
+			if !atTab[sc][i].Before(atTab[sc][i+1]) {
+				kit.Fatalf("time scale %d: query times are not increasing at %d", sc, i)
+			}
+		}
+		for ts := 1; ts <= 3; ts++ {
+			if !stampTab[sc][ts].Equal(atTab[sc][ts]) {
+				kit.Fatalf("time scale %d: timestamp %d and query time %d are different instants", sc, ts, ts)
+			}
+		}
+	}
 }
 
-func stamp(ts int) time.Time { return stampTab[ts] }
-func at(t int) time.Time     { return atTab[t] }
+func stamp(scale, ts int) time.Time { return stampTab[scale][ts] }
+func at(scale, t int) time.Time     { return atTab[scale][t] }
 
 // ---------------------------------------------------------------- real side
 
@@ -85,11 +135,11 @@ func (e *element) prepare(c Case) {
 	e.c = c
 	e.isWay = c.Kind == "way"
 	for p, u := range c.Upd {
-		v := valuesAt(p)
+		v := valuesAt(c, p)
 		e.tmpl[p] = osm.Update{
-			Index:       u.Idx,
+			Index:       c.realIdx(u),
 			Version:     v.Ver,
-			Timestamp:   stamp(u.TS),
+			Timestamp:   stamp(c.Scale, u.TS),
 			ChangesetID: osm.ChangesetID(v.CS),
 			Lat:         v.Lat,
 			Lon:         v.Lon,
@@ -158,9 +208,9 @@ func (e *element) apply(t int) (err error, panicked interface{}) {
 		}
 	}()
 	if e.isWay {
-		return e.way.ApplyUpdatesUpTo(at(t)), nil
+		return e.way.ApplyUpdatesUpTo(at(e.c.Scale, t)), nil
 	}
-	return e.rel.ApplyUpdatesUpTo(at(t)), nil
+	return e.rel.ApplyUpdatesUpTo(at(e.c.Scale, t)), nil
 }
 
 // pend is a pending update as observed on the real object, in model terms.
@@ -184,17 +234,19 @@ type state struct {
 	identityWhy string
 }
 
-func tsOf(tm time.Time) int {
-	d := tm.Sub(epoch)
-	if d%time.Hour != 0 {
-		return -999
+// tsOf: the abstract timestamp an instant stands for in the scale (-999: none).
+func tsOf(scale int, tm time.Time) int {
+	for ts := 1; ts <= 3; ts++ {
+		if tm.Equal(stampTab[scale][ts]) {
+			return ts
+		}
 	}
-	return int(d / time.Hour)
+	return -999
 }
 
-func snapUpdates(out []pend, us osm.Updates) []pend {
+func snapUpdates(out []pend, us osm.Updates, scale int) []pend {
 	for _, u := range us {
-		out = append(out, pend{Idx: u.Index, TS: tsOf(u.Timestamp), Rev: u.Reverse,
+		out = append(out, pend{Idx: u.Index, TS: tsOf(scale, u.Timestamp), Rev: u.Reverse,
 			Val: kid{Ver: u.Version, CS: int64(u.ChangesetID), Lat: u.Lat, Lon: u.Lon}})
 	}
 	return out
@@ -227,7 +279,7 @@ func (e *element) snap(s *state) {
 			!w.Timestamp.Equal(epoch) || len(w.Tags) != 1 || w.Tags[0] != (osm.Tag{Key: "k", Value: "v"}) || w.Committed != nil || w.Bounds != nil {
 			s.ParentOK, s.parentWhat = false, fmt.Sprintf("way fields changed: id=%d v=%d cs=%d ts=%v tags=%v", w.ID, w.Version, w.ChangesetID, w.Timestamp, w.Tags)
 		}
-		s.Pending = snapUpdates(s.pbuf[:0], w.Updates)
+		s.Pending = snapUpdates(s.pbuf[:0], w.Updates, c.Scale)
 		return
 	}
 	r := &e.rel
@@ -260,7 +312,7 @@ func (e *element) snap(s *state) {
 		!r.Timestamp.Equal(epoch) || len(r.Tags) != 1 || r.Tags[0] != (osm.Tag{Key: "k", Value: "v"}) || r.Committed != nil || r.Bounds != nil {
 		s.ParentOK, s.parentWhat = false, fmt.Sprintf("relation fields changed: id=%d v=%d cs=%d ts=%v tags=%v", r.ID, r.Version, r.ChangesetID, r.Timestamp, r.Tags)
 	}
-	s.Pending = snapUpdates(s.pbuf[:0], r.Updates)
+	s.Pending = snapUpdates(s.pbuf[:0], r.Updates, c.Scale)
 }
 
 func sameKids(a, b []kid) bool {
@@ -335,6 +387,9 @@ var found = collector{keys: map[string]*failing{}}
 // smaller orders cases: shorter list, fewer children, way before relation,
 // smaller base, then the list itself.
 func smaller(a, b Case) bool {
+	if x, y := a.variantWeight(), b.variantWeight(); x != y {
+		return x < y // the plain case before any boundary variant
+	}
 	if len(a.Upd) != len(b.Upd) {
 		return len(a.Upd) < len(b.Upd)
 	}
@@ -357,6 +412,11 @@ func smaller(a, b Case) bool {
 		}
 		if x.Rev != y.Rev {
 			return !x.Rev
+		}
+	}
+	for _, d := range [...][2]int{{a.Scale, b.Scale}, {a.Pal, b.Pal}, {a.Far, b.Far}, {a.BaseVar, b.BaseVar}} {
+		if d[0] != d[1] {
+			return d[0] < d[1]
 		}
 	}
 	return false
@@ -404,7 +464,13 @@ type stats struct {
 	lateBeforeInTime, unorderedLists, outOfRangeLists   int64
 	sameChildTwice, reversing                           int64
 	wayCases, relCases                                  int64
+	variantCases                                        [5]int64 // scale, payloads, far index, base children, no children
+	geomPurityJudged                                    int64
 }
+
+var variantCounterNames = [...]string{
+	"cases_time_scale_other_than_hours", "cases_boundary_payloads", "cases_far_out_of_range_index",
+	"cases_boundary_children", "cases_without_children"}
 
 func (s *stats) flush(r *kit.Run) {
 	r.Add("apply_evaluations_state_judged", s.applyJudged)
@@ -422,6 +488,10 @@ func (s *stats) flush(r *kit.Run) {
 	r.Add("cases_with_reversing_update", s.reversing)
 	r.Add("way_cases", s.wayCases)
 	r.Add("relation_cases", s.relCases)
+	for i, n := range s.variantCases {
+		r.Add(variantCounterNames[i], n)
+	}
+	r.Add("geometry_evaluations_query_left_the_way_unchanged_judged", s.geomPurityJudged)
 }
 
 func checkCase(r *kit.Run, el *element, c Case, st *stats) {
@@ -446,6 +516,11 @@ func checkCase(r *kit.Run, el *element, c Case, st *stats) {
 	}
 	if sameChildTwice(c) {
 		st.sameChildTwice++
+	}
+	for i, on := range [...]bool{c.Scale != 0, c.Pal != 0, c.Far != 0, c.BaseVar != 0, c.N == 0} {
+		if on {
+			st.variantCases[i]++
+		}
 	}
 	if kind == "way" {
 		st.wayCases++
@@ -587,15 +662,23 @@ func checkCase(r *kit.Run, el *element, c Case, st *stats) {
 		st.geomSkipRange++
 		return
 	}
+	var untouched expectedT // the way as built: no update applied, all pending
+	model(c, -1, &untouched)
+	var after state
 	for t := 0; t <= maxT; t++ {
 		st.geomJudged++
-		var lsAt, lsApplied orb.LineString
+		var lsAt, lsAgain, lsApplied orb.LineString
 		var applyErr error
 		pan := func() (p interface{}) {
 			defer func() { p = recover() }()
-			lsAt = el.build().way.LineStringAt(at(t))
-			cp := el.build() // lsAt is a fresh slice made by LineStringAt, rebuilding does not alias it
-			applyErr = cp.way.ApplyUpdatesUpTo(at(t))
+			q := el.build()
+			lsAt = q.way.LineStringAt(at(c.Scale, t))
+			q.snap(&after)
+			// the same query once more on the same object
+			lsAgain = append(lsAgain, q.way.LineStringAt(at(c.Scale, t))...)
+			lsAt = append(orb.LineString(nil), lsAt...)
+			cp := el.build() // the same element re-initialised; both results were copied above
+			applyErr = cp.way.ApplyUpdatesUpTo(at(c.Scale, t))
 			lsApplied = cp.way.LineString()
 			return nil
 		}()
@@ -605,6 +688,15 @@ func checkCase(r *kit.Run, el *element, c Case, st *stats) {
 		}
 		if applyErr != nil {
 			continue // reported by the index-out-of-range clause above
+		}
+		// a query: the way itself is as it was (the property applies the updates "on a copy")
+		st.geomPurityJudged++
+		if !sameKids(after.Kids, untouched.Kids) || !samePending(after.Pending, untouched.Pending) || !after.IdentityOK || !after.ParentOK || !after.BeyondOK {
+			viol("linestringat-vs-apply/query-changed-the-way", fmt.Sprintf("t=%d: after LineStringAt the way has nodes %v pending %v %s %s %s, before it had nodes %v pending %v",
+				t, after.Kids, after.Pending, after.identityWhy, after.parentWhat, after.beyondWhat, untouched.Kids, untouched.Pending))
+		}
+		if !sameLine(lsAgain, lsAt) {
+			viol("linestringat-vs-apply/second-call-differs", fmt.Sprintf("t=%d: LineStringAt=%v, asked again on the same way=%v", t, lsAt, lsAgain))
 		}
 		if sameLine(lsAt, lsApplied) {
 			continue
@@ -639,6 +731,29 @@ type job struct {
 	length int
 	lo, hi int // list codes [lo,hi)
 	ring   bool
+	v      variant
+}
+
+// variant: the boundary classes switched on for a family of cases (see Case).
+type variant struct{ scale, pal, far, baseVar int }
+
+func (v variant) weight() int {
+	return Case{Scale: v.scale, Pal: v.pal, Far: v.far, BaseVar: v.baseVar}.variantWeight()
+}
+
+// allVariants: every combination of time scale x payload palette x far index x base children.
+func allVariants() []variant {
+	var vs []variant
+	for sc := 0; sc < nScales; sc++ {
+		for pal := 0; pal <= 1; pal++ {
+			for far := 0; far <= 3; far++ {
+				for bv := 0; bv <= 1; bv++ {
+					vs = append(vs, variant{sc, pal, far, bv})
+				}
+			}
+		}
+	}
+	return vs
 }
 
 func pow(a, b int) int {
@@ -691,11 +806,21 @@ type bounds struct {
 	relDeep           int // max list length: n = 3, base (node, way CW, way CCW)
 	relCover          int // max list length: n = 3, the two other rotations of that base
 	relAll            int // max list length: n = 3, the remaining 24 bases
+	// boundary variants, run on: ways with every mask, relations with n = 3 on the
+	// three rotations of (node, way CW, way CCW), n = 2 on the pairs (node,CW)
+	// (CW,CCW) (CCW,node), n = 1 on every kind; the ring shapes; elements without children
+	oneVariant    int // max list length: exactly one boundary class switched on
+	oneVariantWay int // the same for fully annotated ways (the geometry clause)
+	mixVariants   int // max list length: every combination of two or more classes, and the rings and childless elements under every combination
 }
+
+// rotations of (node, way-CW, way-CCW) cut to two members
+var coveringRelBases2 = []int{0 + 1*3, 1 + 2*3, 2 + 0*3}
 
 func enumerate(b bounds) []job {
 	var jobs []job
 	ring := false
+	var v variant
 	add := func(kind string, n, base, maxLen int) {
 		a := alphabet(kind, n)
 		for l := 0; l <= maxLen; l++ {
@@ -706,7 +831,7 @@ func enumerate(b bounds) []job {
 				if hi > total {
 					hi = total
 				}
-				jobs = append(jobs, job{kind, n, base, l, lo, hi, ring})
+				jobs = append(jobs, job{kind, n, base, l, lo, hi, ring, v})
 			}
 		}
 	}
@@ -740,6 +865,48 @@ func enumerate(b bounds) []job {
 		add("relation", n, 0, b.relCover)                       // all members nodes
 		add("relation", n, pow(3, n)-1-pow(3, n-1), b.relCover) // ways CCW, last one CW... first and last get the same ref
 	}
+	ring = false
+
+	// elements without children: every index is out of range, the geometry is empty
+	add("way", 0, 0, b.wayOther)
+	add("relation", 0, 0, b.relSmall)
+
+	// boundary variants
+	for _, v = range allVariants() {
+		w := v.weight()
+		if w == 0 {
+			continue
+		}
+		l, lFull := b.mixVariants, b.mixVariants
+		if w == 1 {
+			l, lFull = b.oneVariant, b.oneVariantWay
+		}
+		ring = false
+		for n := 1; n <= 3; n++ {
+			full := 1<<uint(n) - 1
+			for mask := 0; mask < full; mask++ {
+				add("way", n, mask, l)
+			}
+			add("way", n, full, lFull)
+		}
+		for base := 0; base < 3; base++ {
+			add("relation", 1, base, l)
+		}
+		for _, base := range coveringRelBases2 {
+			add("relation", 2, base, l)
+		}
+		for _, base := range coveringRelBases3 {
+			add("relation", 3, base, l)
+		}
+		add("way", 0, 0, b.mixVariants)
+		add("relation", 0, 0, b.mixVariants)
+		ring = true
+		for n := 2; n <= 3; n++ {
+			add("way", n, 1<<uint(n)-1, b.mixVariants)
+			add("relation", n, 0, b.mixVariants)
+			add("relation", n, pow(3, n)-1-pow(3, n-1), b.mixVariants)
+		}
+	}
 	return jobs
 }
 
@@ -748,17 +915,23 @@ func main() {
 		r.Rule("case = (element, stored update list): ways with n in {1,2,3} nodes x every annotated/unannotated mask, relations with n in {1,2,3} members x member kinds {node, way CW, way CCW}; " +
 			"EVERY list up to the tier's length bound over index in {0..n} (n = one past the end) x timestamp in {1h,2h,3h} x reverse in {false,true} (relations), each update carrying version/changeset/lat/lon unique to its list position " +
 			"(so every stored order of every multiset occurs and the winning update is observable). Inside a case: every t in {0h..4h} (t equal to a timestamp included, given in another time zone) and every pair t1<=t2. " +
+			"Boundary classes, each alone on shorter lists and all combinations on still shorter ones (max_list_length, boundary_classes in the evidence): elements without children; " +
+			"the out-of-range index n+1, 2^32, largest int instead of n; timestamps and query times one nanosecond apart around 2012-09-12T09:30:03Z in three zones; the zero time, one nanosecond before it, 1970-01-01 and a time after 2262 as timestamps and as query times; " +
+			"updates carrying changeset 0, lon 0, the largest int / int64, values beyond 32 and 53 bits, +-90/+-180, 1e-7, two equal payloads; children at 0/0 that have a version and children with the largest values. " +
+			"For fully annotated ways LineStringAt is also asked twice on one object and the way is compared with what it was before the query. " +
 			"Non-trivial = at least two updates with at least two distinct timestamps (some t splits the list into applied and pending). Fingerprint = (kind,n,base,list), injective.")
 		r.Assume("Go memory safety: a write beyond len(slice) can only show as a panic or in the spare capacity element placed behind the child slice, both are observed")
 		r.Assume("update values by list position stand for arbitrary distinct values: the code under test copies them and never branches on version/changeset/location")
 		r.Assume("out-of-order lists: 'applying updates' means in stored order (the property's time-order precondition on composability presupposes it), so the last stored update stamped <= t wins; violations there carry their own key suffix out-of-order-list")
 		r.Assume("negative indices are outside the property's domain (annotation never produces them) and are not enumerated; the state of an element after an index error is not judged")
+		r.Assume("a way node with version 0 that has a location, and an update with version 0, are neither clearly annotated nor clearly unannotated: not enumerated; geometry-at-time for lists with an out-of-range index is not judged (DESIGN section 6)")
+		r.Assume("LineStringAt is a query: the property applies the updates 'on a copy', so the way it is asked about must be the same afterwards (own key linestringat-vs-apply/query-changed-the-way)")
 		r.Assume("internal/mputil (consumer of LineStringAt) cannot be imported from another module and is not exercised here")
 
 		if r.ReplayPath != "" {
 			var c Case
 			r.LoadReplay(&c)
-			if (c.Kind != "way" && c.Kind != "relation") || c.N < 1 {
+			if (c.Kind != "way" && c.Kind != "relation") || c.N < 0 || c.Scale < 0 || c.Scale >= nScales || c.Pal < 0 || c.Pal > 1 || c.Far < 0 || c.Far > 3 || c.BaseVar < 0 || c.BaseVar > 1 {
 				kit.Fatalf("replay: bad case %+v", c)
 			}
 			var st stats
@@ -769,14 +942,21 @@ func main() {
 			return
 		}
 
-		b := bounds{wayFull: 5, wayOther: 4, relSmall: 4, relDeep: 4, relCover: 4, relAll: 3}
+		b := bounds{wayFull: 5, wayOther: 4, relSmall: 4, relDeep: 4, relCover: 4, relAll: 3, oneVariant: 3, oneVariantWay: 4, mixVariants: 2}
 		if !r.Quick() {
-			b = bounds{wayFull: 6, wayOther: 5, relSmall: 5, relDeep: 5, relCover: 4, relAll: 4}
+			b = bounds{wayFull: 6, wayOther: 5, relSmall: 5, relDeep: 5, relCover: 4, relAll: 4, oneVariant: 4, oneVariantWay: 5, mixVariants: 3}
 		}
 		r.Set("max_list_length", map[string]int{
 			"way_fully_annotated": b.wayFull, "way_with_unannotated_nodes": b.wayOther,
 			"relation_n<=2_all_bases": b.relSmall, "relation_n=3_base_node_cw_ccw": b.relDeep,
-			"relation_n=3_two_rotations_of_that_base": b.relCover, "relation_n=3_remaining_24_bases": b.relAll})
+			"relation_n=3_two_rotations_of_that_base": b.relCover, "relation_n=3_remaining_24_bases": b.relAll,
+			"one_boundary_class": b.oneVariant, "one_boundary_class_fully_annotated_way": b.oneVariantWay, "combined_boundary_classes_rings_childless": b.mixVariants})
+		r.Set("boundary_classes", map[string]interface{}{
+			"time_scales":        scaleNames,
+			"out_of_range_index": farNames,
+			"payloads":           []string{"distinct small values, 0/0, lat 0", "changeset 0, lon 0, largest int / int64, 2^31, 2^40, 2^53+1, +-90/+-180, 1e-7, a repeated payload"},
+			"children":           []string{"distinct small values", "child 0 at 0/0 with a version, child 1 with the largest version, changeset 0, 90/-180"},
+			"child_counts":       []int{0, 1, 2, 3}})
 		r.Set("t_values_h", []int{0, 1, 2, 3, 4})
 		r.Set("timestamps_h", []int{1, 2, 3})
 
@@ -787,6 +967,11 @@ func main() {
 		r.Sample(decode("relation", 3, coveringRelBases3[0], 4, 200001))
 		r.Sample(decode("relation", 2, 5, 3, 2222))
 		r.Sample(decode("relation", 1, 1, 4, 4000))
+		for _, v := range []variant{{scale: 1}, {scale: 2, far: 3}, {pal: 1, baseVar: 1}} {
+			c := decode("way", 2, 3, 3, 5+3*9+8*81) // [idx2@2h idx0@2h idx2@3h]
+			c.Scale, c.Pal, c.Far, c.BaseVar = v.scale, v.pal, v.far, v.baseVar
+			r.Sample(c)
+		}
 
 		jobs := enumerate(b)
 		r.Set("jobs", len(jobs))
@@ -804,6 +989,10 @@ func main() {
 			for code := j.lo; code < j.hi; code++ {
 				c := decode(j.kind, j.n, j.base, j.length, code)
 				c.Ring = j.ring
+				c.Scale, c.Pal, c.Far, c.BaseVar = j.v.scale, j.v.pal, j.v.far, j.v.baseVar
+				if c.Far != 0 && allInRange(c) {
+					continue // no update uses the index n: the same case as with Far = 0
+				}
 				checkCase(r, el, c, &st)
 			}
 			st.flush(r)
